@@ -1007,6 +1007,10 @@ pub fn run(case: &Case) -> String {
         };
         out.push(format!("{} @{} [{}]", r, ns(simu.time()), drain(&log)));
     }
+    // the simulation goes first: dropping a never-added mailbox while a sender task is still blocked
+    // on it would wake that task from outside the executor (which panics by design)
+    drop(simu);
+    drop(sched);
     drop(orphans);
     out.join(" | ")
 }
